@@ -2457,6 +2457,22 @@ func (d *Data) MoveElement(ctx *datastore.VersionedCtx, from, to dvid.Point3d, k
 	}
 
 	deleteElement := (bytes.Compare(fromTk, toTk) != 0)
+
+	// Elements are addressed by position, so refuse a move onto a position that already holds an element.
+	if !from.Equals(to) {
+		destElems := fromElems
+		if deleteElement {
+			if destElems, err = getElements(ctx, toTk); err != nil {
+				return err
+			}
+		}
+		for _, elem := range destElems {
+			if to.Equals(elem.Pos) {
+				return fmt.Errorf("cannot move element %s to %s: an element already exists at that position", from, to)
+			}
+		}
+	}
+
 	moved, _ := fromElems.move(from, to, deleteElement)
 	if moved == nil {
 		return fmt.Errorf("Did not find moved element %s in datastore", from)
